@@ -118,6 +118,13 @@ prop('C15', True, "Lean model of the uncached classifier, the cached classifier 
      "Direct dependencies = what Task.dependencies() reports (C03 ties that to reality); `jug graph`'s third copy of the classifier is not covered.",
      "Lean 4 proof + kernel-checked exhaustive classifier table (translator) + differential correspondence on printed output")
 
+prop('C16', True, "Lean model of argument evaluation (value()) and dependency reporting over tasks, tasklets t[i] / t[a:b] / t[u] with u a task / nested, return_tuple-style checked elements, containers and pass-through wrappers, with "
+     "CPython indexing/slicing on a value universe. Theorems (mutual structural induction over expressions): view_value, return_tuple_value, wrap_transparent, deps_complete (every task occurring anywhere underneath is reported), "
+     "eval_reads_only_deps (the value depends only on the reported dependencies, so waiting for / invalidating them suffices: C03, C09), views_have_no_entry. Correspondence: random expressions (incl. a malformed stream) evaluated by the real "
+     "value() / dependencies() / can_run() vs the model vs plain Python; the view's identifier and dependencies must not change by evaluating it; mapped sequences and all their slices; CPython indexing validated exhaustively on a box.",
+     "Wrappers CustomHash/NoHash applied to plain values (documented use); Python semantics of the small value universe trusted as validated against the running interpreter.",
+     "Lean 4 proof (mutual structural induction) + differential correspondence with the real value()/dependencies()")
+
 def main():
     checks, na = [], []
     ids = ['C%02d' % i for i in range(1, 21)]
